@@ -45,7 +45,10 @@ def _one(rec):
         parts = src.split(rec["old"])
         new_src = rec["old"].join(parts[:occ]) + rec["new"] + rec["old"].join(parts[occ:])
         try:
-            compile(new_src, path, "exec")
+            import warnings
+            with warnings.catch_warnings():
+                warnings.simplefilter("ignore")
+                compile(new_src, path, "exec")
         except SyntaxError as e:
             return rec, "not-applicable", f"mutant does not compile: {e}"
         open(path, "w").write(new_src)
@@ -59,6 +62,50 @@ def _one(rec):
         return rec, "silent", ""
     finally:
         shutil.rmtree(d, ignore_errors=True)
+
+
+def _patched(patch_path, prop):
+    """quick check of `prop` on a scratch copy of the current tree with a committed patch applied: 'caught' | 'incomplete' | 'silent' | 'not-applicable'"""
+    d = tempfile.mkdtemp(prefix="uxsa_pat_", dir=os.environ.get("TMPDIR", "/tmp"))
+    try:
+        shutil.copytree(os.path.join(REPO, "uxarray"), os.path.join(d, "uxarray"), ignore=shutil.ignore_patterns("__pycache__"))
+        p = subprocess.run(["patch", "-p1", "-s", "--no-backup-if-mismatch", "-i", patch_path], cwd=d, capture_output=True, text=True)
+        if p.returncode != 0:
+            return "not-applicable", "patch no longer applies to the tree"
+        env = dict(os.environ, UXSA_REPO=d, UXSA_NO_EVIDENCE="1", UXSA_NO_REPLAY="1")
+        p = subprocess.run([sys.executable, "-m", "uxsa", "check", prop, "--tier", "quick"], cwd=VERIF, env=env, capture_output=True, text=True)
+        rules = [l.strip() for l in p.stdout.splitlines() if l.startswith("  rule=")]
+        if p.returncode == 1:
+            return "caught", rules[0][:160] if rules else ""
+        if p.returncode == 2:
+            return "incomplete", next((l for l in p.stdout.splitlines() if l.startswith("ANALYSIS-")), "")[:160]
+        return "silent", ""
+    finally:
+        shutil.rmtree(d, ignore_errors=True)
+
+
+def validate_patches(prop, jobs=None):
+    """The committed sub-agent changes of this property: seeded/<prop>*/ (written to BREAK the property: this property's check should report them; a change that
+    only another property's check reports is listed as such in DESIGN 9.6) and twins/<prop>t*/ (behaviour-preserving: the check must not report a violation)."""
+    res = {"seeded": {}, "refactorings": {}}
+    work = []
+    for kind, root in (("seeded", "seeded"), ("refactorings", "twins")):
+        base = os.path.join(VERIF, root)
+        if not os.path.isdir(base):
+            continue
+        for nm in sorted(os.listdir(base)):
+            pp = os.path.join(base, nm, "patch.diff")
+            if nm.startswith(prop) and os.path.exists(pp):
+                work.append((kind, nm, pp))
+    with ThreadPoolExecutor(jobs or min(8, os.cpu_count() or 4)) as ex:
+        for (kind, nm, _pp), (outcome, info) in zip(work, ex.map(lambda w: _patched(w[2], prop), work)):
+            res[kind][nm] = {"outcome": outcome, "rule": info}
+    res["seeded_reported"] = sum(1 for v in res["seeded"].values() if v["outcome"] == "caught")
+    res["seeded_total"] = len(res["seeded"])
+    res["refactorings_false_alarms"] = sorted(k for k, v in res["refactorings"].items() if v["outcome"] == "caught")
+    res["refactorings_silent"] = sum(1 for v in res["refactorings"].values() if v["outcome"] == "silent")
+    res["refactorings_not_understood"] = sum(1 for v in res["refactorings"].values() if v["outcome"] == "incomplete")
+    return res
 
 
 def validate(prop=None, jobs=None):
